@@ -66,7 +66,7 @@ Definition set_iso2d (o : optvar) (b : bool) : optvar :=
 
 (* st_alter_model_optvar.  zflat: for each direction, isZero(codir(idir,2)) (used in 3-D only);
    sill_cons: constraints.isDefinedForSill(); sill_neg: one of those sill constraints has a negative value
-   (modify_constraints_on_sill fails).  None = the function returns 1 (model_auto_count returns -2).
+   (modify_constraints_on_sill fails, whatever the Goulard flag since the fix of the pinned tree).  None = the function returns 1 (model_auto_count returns -2).
    The "clever setting of options" is written as a chain of steps, one per source statement. *)
 Definition alt1 (ndim n2 n3 : Z) (o : optvar) := if ndim =? 3 then set_iso2d (set_no3d o (n3 <=? 0)) (n2 <=? 0) else o.
 Definition alt2 (ndim ndir : Z) (o : optvar) := if ndir <=? ndim then set_rot o false else o.
@@ -79,15 +79,26 @@ Definition alt8 (o : optvar) :=
   if negb (o_aniso o) then set_iso2d (set_no3d (set_rot2d (set_samerot (set_rot o false) false) false) false) false else o.
 Definition alter_geom (ndim ndir n2 n3 : Z) (o : optvar) : optvar :=
   alt8 (alt7 (alt6 (alt5 n2 (alt4 ndim n3 (alt3 ndim ndir (alt2 ndim ndir (alt1 ndim n2 n3 o))))))).
+(* "Case when constraints involve sill(s)" (after the fix: whatever the Goulard flag, the items are rewritten by
+   modify_constraints_on_sill and Goulard is switched off), then "In Multivariate case, Goulard option is mandatory" *)
+Definition alter_sill (nvar : Z) (sill_cons sill_neg : bool) (o : optvar) : option optvar :=
+  if sill_cons && sill_neg then None
+  else
+    let o := if sill_cons then set_goulard o false else o in
+    if (1 <? nvar) && negb (o_goulard o) then None else Some o.
 Definition alter_optvar (ndim ndir : Z) (zflat : list bool) (nvar : Z) (sill_cons sill_neg : bool) (o : optvar)
   : option optvar :=
   let n2 := if ndim =? 2 then ndir else if ndim =? 3 then Z.of_nat (length (filter (fun b => b) zflat)) else 0 in
   let n3 := if ndim =? 3 then Z.of_nat (length (filter negb zflat)) else 0 in
   let o := alter_geom ndim ndir n2 n3 o in
-  if sill_cons && o_goulard o && sill_neg then None
-  else
-    let o := if sill_cons && o_goulard o then set_goulard o false else o in
-    if (1 <? nvar) && negb (o_goulard o) then None else Some o.
+  alter_sill nvar sill_cons sill_neg o.
+
+(* st_alter_vmap_optvar (after the fix "fitFromVMap respects the isotropy and locked-rotation options"):
+   no anisotropy => no rotation; third dimension locked in 2-D; then the sill / Goulard part *)
+Definition alter_vmap_optvar (ndim nvar : Z) (sill_cons sill_neg : bool) (o : optvar) : option optvar :=
+  let o := if negb (o_aniso o) then set_rot o false else o in
+  let o := set_no3d o (ndim <=? 2) in
+  alter_sill nvar sill_cons sill_neg o.
 
 (* ------------------------------------------------------------------ list of free parameters *)
 (* what model_cova_characteristics says of a basic structure *)
@@ -296,6 +307,26 @@ Definition grad_points (eps p : Q) (l u : option Q) : Q * Q :=
 Definition eps9 : Q := 1 # 1000000000.
 Definition shift_ok (b : Q * Q) (shift : Q) : bool :=
   negb (qltb shift (fst b - eps9)) && negb (qltb (snd b + eps9) shift).
+
+(* ------------------------------------------------------------------ angles imposed by equality constraints *)
+(* model_auto_fit, after st_model_auto_constraints_apply: for an angle of rank idim of structure icov that is NOT a
+   parameter (st_parid_match < 0), "vmin = constraints_get(LOWER); vmax = constraints_get(UPPER);
+   if both defined and vmin == vmax: angles[idim] = vmin" *)
+Definition angle_is_param (ps : list parid) (icov idim : Z) : bool :=
+  existsb (fun p => Z.eqb (p_imod p) 0 && Z.eqb (p_icov p) icov && Z.eqb (p_elem p) E_ANGLE && Z.eqb (p_ivar p) idim) ps.
+Definition imposed_angle (items : list citem) (ps : list parid) (icov idim : Z) (a0 : Q) : Q :=
+  if angle_is_param ps icov idim then a0
+  else match constraints_get items T_LOWER (mkP 0 icov E_ANGLE idim 0), constraints_get items T_UPPER (mkP 0 icov E_ANGLE idim 0) with
+       | Some vmin, Some vmax => if qeqb vmin vmax then vmin else a0
+       | _, _ => a0
+       end.
+Fixpoint imposed_angles_from (items : list citem) (ps : list parid) (icov idim : Z) (angles : list Q) : list Q :=
+  match angles with
+  | [] => []
+  | a :: r => imposed_angle items ps icov idim a :: imposed_angles_from items ps icov (idim + 1)%Z r
+  end.
+Definition imposed_angles (items : list citem) (ps : list parid) (icov : Z) (angles : list Q) : list Q :=
+  imposed_angles_from items ps icov 0%Z angles.
 
 (* ------------------------------------------------------------------ ranges written into the model *)
 (* st_model_auto_strmod_define, E_RANGE: "if (ivar == 0) fill(ranges, param); if (ivar < ndim) ranges[ivar] = param" *)
